@@ -3,6 +3,9 @@ CONSTANTS
   Cells <- AllCells
   Ops = {"A", "C"}
   MaxOps = 5
+  Progs = {"c", "x"}
+  Flags = {}
 INVARIANT RanIsDistinct
+INVARIANT StartsClean
 CONSTRAINT Export
 CHECK_DEADLOCK FALSE
